@@ -425,6 +425,27 @@ def r5_failed_result_pairing(chk, rule='C07.R5'):
             if lv:
                 store_keys.add(lv)
             ok = norm(k) in store_keys
+            if not ok:
+                # forgetting under a further name is harmless when it is guarded (`if k in FAILED: del FAILED[k]`,
+                # FAILED.pop(k, None)) and the name the failure is recorded under is forgotten in the same block
+                guarded = (pc and pc[0] == r.failed and len(cr.stmt_of(pc[1], r.fn).value.args) > 1) or any(
+                    isinstance(a, ast.If) and isinstance(a.test, ast.Compare) and len(a.test.ops) == 1 and
+                    isinstance(a.test.ops[0], ast.In) and norm(a.test.left) == norm(k) and
+                    _key_is(a.test.comparators[0], r.failed) and any(st is b or in_subtree(st, b) for b in a.body)
+                    for a in [getattr(st, '_parent', None)])
+                sibs = []
+                blk = getattr(getattr(st, '_parent', None), '_parent', None) if guarded and pc is None else \
+                    getattr(st, '_parent', None)
+                for field in ('body', 'orelse'):
+                    for x in getattr(blk, field, []) or []:
+                        for y in ast.walk(x):
+                            for d2, k2 in (cr.del_targets(y) if isinstance(y, ast.Delete) else []):
+                                if d2 == r.failed:
+                                    sibs.append(norm(k2))
+                            pc2 = cr.pop_call(y) if isinstance(y, ast.Expr) else None
+                            if pc2 and pc2[0] == r.failed:
+                                sibs.append(norm(pc2[1]))
+                ok = bool(guarded) and any(x in store_keys for x in sibs)
             if not ok and isinstance(k, ast.Name):
                 # `for k in (a, b): if k in FAILED: del FAILED[k]` - forgetting under several names is fine as long
                 # as the name the failure is recorded under is one of them
@@ -766,9 +787,20 @@ def t1_typestate(chk):
     """typestate analysis of compile() (rules/compile_ts.py): end-to-end bookkeeping invariants for an arbitrary
     module over every outcome of every component call"""
     from rules import compile_ts
-    compile_ts.ts_rule(chk, 'C07.T1', ['escape', 'accounted', 'status-effect', 'once', 'verbatim', 'failed-pairing', 'drained', 'own-key'])
+    compile_ts.ts_rule(chk, 'C07.T1', ['escape', 'accounted', 'status-effect', 'once', 'verbatim', 'failed-pairing', 'stale-failure', 'failure-forgotten', 'own-key'])
+
+
+
+def r10_generators_start_clean(chk):
+    """compile() drives one symbol-table generator and one code generator through all modules of a call (and of later
+    calls): whatever a failed module leaves behind in them reaches the next module - shared with C12.R2"""
+    from rules.C12 import r2_generator_reset
+    common.reuse(chk, r2_generator_reset, ('C12.R2',), 'C07.R10',
+                 'both generators re-initialise, at the start of genCode, every attribute their handlers write '
+                 '(postponed symbols, rows, columns, import map, records ...): one bad module must not make the '
+                 'modules after it fail or come out differently (C12.R2)', floor=12)
 
 
 RULES = [r9_wellformedness, r1_containment, r2_no_package_raise_escapes, r3_status_values, r4_no_silent_drop, r4b_popped_name_accounted,
          r5_failed_result_pairing, r6_single_writer_site, r7_foreign_exceptions,
-         r8_closure_discovery, t1_typestate]
+         r8_closure_discovery, t1_typestate, r10_generators_start_clean]
